@@ -494,9 +494,8 @@ def _mode_swaps(k):
     c = Contract(
         target=f"{CIRC}:Circuit.mode_swaps",
         types={"self": CIRCUIT, "swaps": _swap_dict(k), **{x: "int" for x in keys + vals}},
-        # with ancillas present the argument needs that _map_mode is injective, which its modular contract does not state (a two-call property):
-        # the non-empty dictionaries are therefore verified for circuits without ancillas (all mode values and the mode count symbolic)
-        requires=[WF_INTERNAL, WF_RANGE] + [f"{x} >= 0" for x in keys + vals] + distinct + (["len(self.__internal_modes) == 0"] if k else []),
+        # with ancillas present the argument needs that _map_mode is injective: supplied as the relational lemma map-mode-monotone (pair_facts below)
+        requires=[WF_INTERNAL, WF_RANGE] + [f"{x} >= 0" for x in keys + vals] + distinct,
         modifies=["self.__circuit_spec"],
         ensures={"swaps_recorded": "len(suffix(self.__circuit_spec)) == 1 and isinstance(suffix(self.__circuit_spec)[0], ModeSwaps)"},
         # out-of-range modes are refused first; a dictionary whose keys and values are not the same set of modes is incomplete
@@ -510,3 +509,19 @@ def _mode_swaps(k):
 
 SWAPS = [_mode_swaps(0), _mode_swaps(1), _mode_swaps(2)]
 CONTRACTS += SWAPS
+
+
+# _map_mode is strictly increasing in the mode for a fixed ancilla list: a fact about TWO calls, added between every pair of modular calls.
+# Proved as lemma.map-mode-monotone (+ increasing-spreads, sorted-distinct-is-strict) in vf/lemmas/z3lemmas.py from the clause `rank` above.
+def _map_mode_pairs(ex, vals_a, res_a, vals_b, res_b):
+    import z3
+    la, ma = vals_a
+    lb, mb = vals_b
+    if ex._sig([la]) != ex._sig([lb]) or not (hasattr(ma, "sort") and hasattr(mb, "sort")):
+        return []
+    # equal arguments give equal results (the function is pure - functional congruence), smaller gives smaller (the lemma)
+    return [z3.Implies(ma == mb, res_a == res_b), z3.Implies(ma < mb, res_a < res_b), z3.Implies(ma > mb, res_a > res_b)]
+
+
+CONTRACTS[0].pair_facts = _map_mode_pairs
+CONTRACTS[0].pair_lemma = "lemma.map-mode-monotone (z3, vf/lemmas/z3lemmas.py): _map_mode is strictly increasing in the mode for a fixed ancilla list"
